@@ -13,6 +13,40 @@ fn main() {
         std::process::exit(2);
     }
     let id = args[1].to_uppercase();
+    if id == "REALX" {
+        // ad-hoc: mc REALX <level> <k> <depth> [timeout]
+        use srtla_verif::realx::*;
+        let level: u8 = args.get(2).and_then(|s| s.parse().ok()).unwrap_or(1);
+        let k: usize = args.get(3).and_then(|s| s.parse().ok()).unwrap_or(1);
+        let depth: usize = args.get(4).and_then(|s| s.parse().ok()).unwrap_or(20);
+        let timeout: u64 = args.get(5).and_then(|s| s.parse().ok()).unwrap_or(5000);
+        let m = LoopModel::new(2, timeout, false, level);
+        let mut rep = srtla_verif::evidence::Report::new();
+        let t0 = std::time::Instant::now();
+        let plan = if k == 99 { RealPlan::Full { depth } } else { RealPlan::Dev { k, depth, default: 0 } };
+        let cov = explore(&mut rep, &m, &plan, &["real:"], std::time::Duration::from_secs(600));
+        println!("{} {}: executions {} rounds {} distinct {} wall {:.1}s cov {:?}", m.name, plan.describe(), rep.traces, rep.transitions, rep.states, t0.elapsed().as_secs_f64(), cov);
+        for v in &rep.violations {
+            println!("  [{}] {}\n     {}", v.key, v.message, v.replay);
+        }
+        println!("counts {:?} machinery {:?}", rep.violation_counts, rep.machinery_errors);
+        std::process::exit(0);
+    }
+    if id == "E2E-SPIKE" {
+        // determinism probe of the real-loop engine: N runs on T threads must give one transcript
+        let n: usize = args.get(2).and_then(|s| s.parse().ok()).unwrap_or(8);
+        let threads: usize = args.get(3).and_then(|s| s.parse().ok()).unwrap_or(4);
+        let outs = srtla_verif::engine::par_map(n, threads, |_| srtla_verif::e2e::spike());
+        let mut distinct: std::collections::BTreeMap<String, usize> = Default::default();
+        for o in outs {
+            *distinct.entry(match o { Ok(t) => t, Err(e) => format!("ERROR {e}") }).or_insert(0) += 1;
+        }
+        for (t, c) in &distinct {
+            println!("---- {c} run(s):\n{t}");
+        }
+        println!("distinct transcripts: {}", distinct.len());
+        std::process::exit(if distinct.len() == 1 { 0 } else { 2 });
+    }
     // keep the real code's logging quiet and panics short
     if std::env::var("VERIF_DEBUG").is_err() {
         std::panic::set_hook(Box::new(|_| {}));
